@@ -127,6 +127,19 @@ Definition it_step (repaired : bool) (t : nat) (s : it_st) : option it_st :=
            else Some (next s)
     | _ => None
     end
+  else if repaired then
+    (* notes/fix_C13_2.diff: wait for refCount == 0 and unlink, both decided under the list mutex *)
+    match it_pc1 s with
+    | 0 => if it_lm s =? 0 then Some (next (keep 2 s)) else None                                         (* LOCK(list) *)
+    | 1 => if it_ref s =? 0
+           then Some (next (it_set false (it_ref s) (it_freed s) (it_next s) (it_uaf s) (it_lm s) s))   (* unlink *)
+           else Some (it_setpc 1 5 (keep 0 s))                                                           (* UNLOCK(list); WAIT(deleteCond) *)
+    | 2 => Some (next (keep 0 s))                                                                        (* UNLOCK *)
+    | 3 => Some (it_setpc 1 4 s)
+    | 4 => Some (it_setpc 1 6 (it_set (it_inlist s) (it_ref s) true (it_next s) (it_uaf s) (it_lm s) s)) (* free(cl) *)
+    | 5 => if it_ref s =? 0 then Some (it_setpc 1 0 s) else None                                         (* woken by rfbDecrClientRef *)
+    | _ => None
+    end
   else
     match it_pc1 s with
     | 0 => if it_lm s =? 0 then Some (next (keep 2 s)) else None                                         (* LOCK(list) *)
@@ -170,14 +183,15 @@ Definition sh_setpc (t v : nat) (s : sh_st) : sh_st :=
 Definition SH_OUT_DONE : nat := 7.
 Definition SH_IN_DONE : nat := 6.
 
-(* the four steps of rfbCloseClient, shared by threads 0 and 3 *)
-Definition sh_close_step (t : nat) (s : sh_st) : option sh_st :=
+(* the four steps of rfbCloseClient, shared by threads 0 and 3.  Faithful: LOCK; TSIGNAL; UNLOCK; state = SHUTDOWN.
+   Repaired (notes/fix_C13_1.diff): LOCK; state = SHUTDOWN; TSIGNAL; UNLOCK. *)
+Definition sh_close_step (repaired : bool) (t : nat) (s : sh_st) : option sh_st :=
   let next := sh_setpc t (S (sh_pc t s)) in
   match sh_pc t s with
   | 0 => if sh_um s =? 0 then Some (next (sh_upd (sh_shut s) (S t) (sh_wait s) (sh_gone s) s)) else None
-  | 1 => Some (next (sh_upd (sh_shut s) (sh_um s) false (sh_gone s) s))                 (* TSIGNAL *)
+  | 1 => Some (next (sh_upd (if repaired then true else sh_shut s) (sh_um s) false (sh_gone s) s))   (* TSIGNAL *)
   | 2 => Some (next (sh_upd (sh_shut s) 0 (sh_wait s) (sh_gone s) s))
-  | 3 => Some (next (sh_upd true (sh_um s) (sh_wait s) (sh_gone s) s))                  (* state = RFB_SHUTDOWN *)
+  | 3 => Some (next (sh_upd true (sh_um s) (sh_wait s) (sh_gone s) s))                  (* state = RFB_SHUTDOWN (faithful) *)
   | _ => None
   end.
 
@@ -187,7 +201,7 @@ Definition sh_step (repaired : bool) (t : nat) (s : sh_st) : option sh_st :=
   | 0 => match sh_pcA s with
          | 4 => if sh_pcI s =? SH_IN_DONE then Some (next s) else None                  (* pthread_join(client_thread) *)
          | 5 => None
-         | _ => sh_close_step 0 s
+         | _ => sh_close_step repaired 0 s
          end
   | 1 => match sh_pcI s with
          | 0 => if sh_shut s then Some (next s) else None                               (* while (state != RFB_SHUTDOWN) select... *)
@@ -209,7 +223,7 @@ Definition sh_step (repaired : bool) (t : nat) (s : sh_st) : option sh_st :=
          | 5 => Some (sh_setpc 2 0 (sh_upd (sh_shut s) 0 (sh_wait s) (sh_gone s) s))     (* UNLOCK; loop *)
          | _ => None
          end
-  | 3 => sh_close_step 3 s
+  | 3 => sh_close_step repaired 3 s
   | _ => None
   end.
 Definition sh_init : sh_st := mkSh false 0 false 0 0 0 0 0.
@@ -313,7 +327,8 @@ Definition M_out (k : nat) : nat := 500 + k.
 Definition pairs_client (k : nat) : list (nat * nat) :=
   [ (M_send k, M_upd k); (M_send k, M_cursor); (M_send k, M_out k);      (* clientOutput -> rfbSendFramebufferUpdate *)
     (M_send k, M_list); (M_send k, M_ref k);                              (* rfbNewFramebuffer: iterator while holding sendMutex *)
-    (M_cursor, M_upd k); (M_cursor, M_ref k) ].                           (* rfbSetCursor / rfbNewFramebuffer *)
+    (M_cursor, M_upd k); (M_cursor, M_ref k);                             (* rfbSetCursor / rfbNewFramebuffer *)
+    (M_list, M_ref k) ].                                                  (* notes/fix_C13_2.diff: reference taken / tested under the list mutex *)
 Definition lock_table : list (nat * nat) :=
   pairs_client 0 ++ pairs_client 1 ++
   [ (M_send 0, M_send 1);                                                  (* rfbNewFramebuffer: every sendMutex in list order *)
